@@ -21,8 +21,11 @@ import (
 	"os"
 	"reflect"
 	"runtime"
+	"runtime/debug"
+	"runtime/pprof"
 	"strconv"
 	"strings"
+	"sync"
 	"testing"
 	"testing/synctest"
 	"time"
@@ -73,12 +76,28 @@ func c08V13(suite CipherSuiteID, dual bool) func() (*dtlsConfig, *dtlsConfig) {
 		for _, cfg := range []*dtlsConfig{c, s} {
 			cfg.MaxVersion = protocol.Version1_3
 			cfg.MinVersion = protocol.Version1_3
-			if dual {
-				cfg.MinVersion = protocol.Version1_2
-			}
 			if suite != 0 {
 				cfg.CipherSuites = []CipherSuiteID{suite}
 			}
+		}
+		if dual {
+			c.MinVersion = protocol.Version1_2 // dual-stack client (version negotiation loop without FSM), 1.3-only server
+		}
+
+		return c, s
+	}
+}
+
+// dual-stack endpoints against a DTLS 1.2-only peer: the other version-negotiation loops of conn.go
+func c08Dual12(clientDual bool) func() (*dtlsConfig, *dtlsConfig) {
+	return func() (*dtlsConfig, *dtlsConfig) {
+		c, s := vCertPair()
+		if clientDual {
+			c.MinVersion, c.MaxVersion = protocol.Version1_2, protocol.Version1_3
+			s.MaxVersion = protocol.Version1_2
+		} else {
+			s.MinVersion, s.MaxVersion = protocol.Version1_2, protocol.Version1_3
+			c.MaxVersion = protocol.Version1_2
 		}
 
 		return c, s
@@ -109,7 +128,9 @@ func c08Variants() []c08Variant {
 		{Name: "v13-aes128", V13: true, mk: c08V13(TLS_AES_128_GCM_SHA256, false)},
 		{Name: "v13-aes256", V13: true, mk: c08V13(TLS_AES_256_GCM_SHA384, false)},
 		{Name: "v13-chacha", V13: true, mk: c08V13(TLS_CHACHA20_POLY1305_SHA256, false)},
-		{Name: "dual-13", V13: true, mk: c08V13(0, true)},
+		{Name: "dualc-13", V13: true, mk: c08V13(0, true)},
+		{Name: "dualc-12", mk: c08Dual12(true)},
+		{Name: "duals-12", mk: c08Dual12(false)},
 	}
 }
 
@@ -332,6 +353,10 @@ func c08Classify(d []byte, ctx c08Ctx) string {
 			} else {
 				set("forged")
 			}
+		case r.epoch != 0 && r.ct == 20:
+			// change_cipher_spec typed record claiming a protected epoch: conn.go takes it as cleartext whatever
+			// its epoch (every suite's Decrypt returns CCS records unchanged); a drop class for the property
+			set("undec:ccs-epoch")
 		default:
 			if u := c08ContentUndec(r, ctx); u != "" {
 				set("undec:" + u)
@@ -387,6 +412,7 @@ func (e c08Effect) key() string {
 }
 
 type c08Obs struct {
+	Neg    bool      `json:"neg"`   // target is in the dual-stack version negotiation loop (no FSM yet)
 	Est    bool      `json:"est"`   // target had completed its handshake
 	V13    bool      `json:"v13"`   // target framing
 	Class  string    `json:"class"` // classifier verdict
@@ -497,9 +523,15 @@ func (s *c08Sess) inject(target string, data []byte, class, gen string) c08Effec
 		s.out.emit(c08Res{Kind: "trace", ID: s.id, Target: target, Gen: gen, Note: class, Hex: vHex(data)})
 	}
 	est := p.Conn.isHandshakeCompletedSuccessfully()
+	if est && !s.reader[target] {
+		// the target completed its handshake inside this batch: Read errors must be observable from now on
+		c08StartReader(s, p)
+		synctest.Wait()
+	}
 	ctxV13 := c08CtxOf(p.Conn).v13
 	_, info := c08ClassifyInfo(data, c08CtxOf(p.Conn))
 	fresh := c08Fresh(p.Conn, info)
+	neg := p.Conn.fsm == nil
 	before := s.lab.Net.count()
 	hsDone := p.handshakeDone()
 	closed := p.Conn.isConnectionClosed()
@@ -544,13 +576,13 @@ func (s *c08Sess) inject(target string, data []byte, class, gen string) c08Effec
 	if !c08IsDrop(class) {
 		s.res.DropOnly = false
 	}
-	k := fmt.Sprintf("%v|%s|%s|%d|%v", est, class, eff.key(), min(info.nrec, 2), fresh)
+	k := fmt.Sprintf("%v|%s|%s|%d|%v|%v", est, class, eff.key(), min(info.nrec, 2), fresh, neg)
 	if i, ok := s.obsIdx[k]; ok {
 		s.res.Obs[i].N++
 	} else {
 		s.obsIdx[k] = len(s.res.Obs)
-		o := c08Obs{Est: est, V13: ctxV13, Class: class, Gen: gen, Effect: eff, N: 1, NRec: info.nrec, Fresh: fresh}
-		if !eff.none() || len(s.res.Obs) < 2 {
+		o := c08Obs{Est: est, V13: ctxV13, Class: class, Gen: gen, Effect: eff, N: 1, NRec: info.nrec, Fresh: fresh, Neg: neg}
+		if !eff.none() || len(s.res.Obs) < 2 || (c08IsDrop(class) && len(data) <= 64) {
 			o.Hex = vHex(data)
 		}
 		s.res.Obs = append(s.res.Obs, o)
@@ -1060,6 +1092,7 @@ func c08Hex(h string) []byte {
 }
 
 type c08Case struct {
+	Item    int // corpus: index of the single item to inject (-1 = all in order)
 	ID      int
 	Variant string
 	Stage   int // index of the handshake datagram before whose delivery the batch is injected; -1 = established
@@ -1096,14 +1129,27 @@ func (s *c08Sess) batch(c c08Case, rng *vRand, target string, pending []byte) {
 			d := c08Raw(rng)
 			s.inject(target, d, c08Classify(d, ctx), "raw")
 		case "corpus":
+			if c.Item >= 0 {
+				i = c.Item
+			}
 			if i >= len(c08Corpus) {
 				return
+			}
+			if c08Avoided("corpus:" + c08Corpus[i].name) {
+				if c.Item >= 0 {
+					return
+				}
+
+				continue
 			}
 			d := c08Hex(c08Corpus[i].hex)
 			if i > 0 && len(d) >= 13 && d[0] >= 20 && d[0] <= 27 {
 				binary.BigEndian.PutUint32(d[7:], uint32(0x100000+16*i)) //nolint:gosec // increasing: never behind the replay window
 			}
 			s.inject(target, d, c08Classify(d, ctx), "corpus:"+c08Corpus[i].name)
+			if c.Item >= 0 {
+				return
+			}
 		case "flood-queue":
 			// forged records claiming the next epoch: each may take one of the 100 queue slots
 			var d []byte
@@ -1155,9 +1201,18 @@ func (s *c08Sess) batch(c c08Case, rng *vRand, target string, pending []byte) {
 				src = c08Raw(rng)
 			}
 			d, name := c08Mutate(rng, src, ctx.cidLen)
-			class := c08Classify(d, ctx)
-			if name == "replay" && class == "forged" {
-				class = "clear" // a byte-identical copy of a genuine protected record is authentic (a replay), not a forgery
+			class, minfo := c08ClassifyInfo(d, ctx)
+			if class == "forged" && minfo.nrec > 1 {
+				// a local edit of a genuine multi-record datagram leaves the other records authentic
+				class = "clear"
+			}
+			switch name {
+			case "replay", "double", "junk-front", "junk-back", "extend":
+				if class == "forged" {
+					// the datagram still contains a byte-identical genuine protected record: that part is
+					// authentic (a replay / the pending record itself), not a forgery
+					class = "clear"
+				}
 			}
 			s.inject(target, d, class, "mut:"+name)
 		case "prot":
@@ -1178,11 +1233,17 @@ func (s *c08Sess) batch(c c08Case, rng *vRand, target string, pending []byte) {
 
 					continue
 				}
+				if c08Avoided("prot:" + name) {
+					continue
+				}
 				s.inject(target, d, "auth", "prot:"+name)
 
 				continue
 			}
 			pl := c08MalformedPlain(rng, dtlsstate.HandshakeRecvSequence(tgt.state), ctx.v13)
+			if c08Avoided("prot:" + pl.name) {
+				continue
+			}
 			d, err := c08Seal(peer, pl, rng.intn(3))
 			if err != nil {
 				s.res.Note += " seal(" + pl.name + "):" + err.Error()
@@ -1210,6 +1271,9 @@ func c08Run(t *testing.T, out *vOut, c c08Case, trace bool) c08Res {
 	ccfg, scfg := v.mk()
 	lab := newLab(t, ccfg, scfg)
 	s.lab = lab
+	c08Watch.mu.Lock()
+	c08Watch.net, c08Watch.id = lab.Net, c.ID
+	c08Watch.mu.Unlock()
 	injected := false
 	lab.Pump.Policy = func(d vDatagram) (vAction, int) {
 		if c.Stage >= 0 && d.Idx == c.Stage && !injected {
@@ -1257,7 +1321,7 @@ func c08Run(t *testing.T, out *vOut, c c08Case, trace bool) c08Res {
 			}
 			res.Cache0 = c08CacheLen(lab.peer(target).Conn)
 			if c.Gen == "prot" && v.CBC == 20 && pending != nil && rng.chance(50) {
-				if sp := c08CBCSplice(rng, pending); sp != nil {
+				if sp := c08CBCSplice(rng, pending); sp != nil && !c08Avoided("mut:cbc-splice") {
 					s.inject(target, sp, "forged", "mut:cbc-splice")
 				}
 			}
@@ -1303,7 +1367,7 @@ func c08Cases(seed uint64, thorough bool) []c08Case {
 	rng := newVRand(seed ^ 0xc08c08)
 	var cases []c08Case
 	add := func(v string, stage int, gen string, n int) {
-		cases = append(cases, c08Case{ID: len(cases), Variant: v, Stage: stage, Gen: gen, N: n, Seed: rng.u64()})
+		cases = append(cases, c08Case{ID: len(cases), Variant: v, Stage: stage, Gen: gen, N: n, Seed: rng.u64(), Item: -1})
 	}
 	rounds := 1
 	if thorough {
@@ -1321,6 +1385,13 @@ func c08Cases(seed uint64, thorough bool) []c08Case {
 			}
 			for st := 0; st <= maxStage && r == 0; st++ {
 				add(v.Name, st, "corpus", len(c08Corpus))
+				if v.Name == "psk-gcm" || v.Name == "ecdhe-psk-cbc-sha256" || v.Name == "cert-clientauth" || v.Name == "v13-aes128" {
+					// every corpus item on its own at every point (an earlier item may end the session)
+					for it := range c08Corpus {
+						add(v.Name, st, "corpus", 1)
+						cases[len(cases)-1].Item = it
+					}
+				}
 			}
 			if r == 0 {
 				add(v.Name, -1, "corpus", len(c08Corpus))
@@ -1348,6 +1419,50 @@ func c08Cases(seed uint64, thorough bool) []c08Case {
 	return cases
 }
 
+// watchdog (outside the bubble, real time): an endpoint goroutine that spins never lets synctest.Wait return,
+// and every datagram it writes is kept by the lab network.  The watchdog turns that into a crash with all
+// goroutine stacks, which the driver reports as a livelock of the journalled case.
+var c08Watch struct { //nolint:gochecknoglobals
+	mu  sync.Mutex
+	net *vNet
+	id  int
+}
+
+func c08StartWatchdog() {
+	go func() {
+		var ms runtime.MemStats
+		for {
+			time.Sleep(100 * time.Millisecond)
+			c08Watch.mu.Lock()
+			n, id := c08Watch.net, c08Watch.id
+			c08Watch.mu.Unlock()
+			if n != nil {
+				if cnt := n.count(); cnt > 40000 {
+					debug.SetTraceback("all")
+					// a goroutine profile stops the world and so also shows the stack of the spinning goroutine
+					_ = pprof.Lookup("goroutine").WriteTo(os.Stderr, 2)
+					panic(fmt.Sprintf("c08 watchdog: livelock: case %d: %d datagrams on the wire and still running", id, cnt))
+				}
+			}
+			runtime.ReadMemStats(&ms)
+			if ms.HeapAlloc > 3<<30 {
+				debug.SetTraceback("all")
+				panic(fmt.Sprintf("c08 watchdog: memory: case %d: heap %d MB", id, ms.HeapAlloc>>20))
+			}
+		}
+	}()
+}
+
+func c08Avoided(name string) bool {
+	for _, a := range strings.Split(os.Getenv("VERIF_C08_AVOID"), ",") {
+		if a != "" && a == name {
+			return true
+		}
+	}
+
+	return false
+}
+
 func c08EnvInt(name string, def int) int {
 	if v := os.Getenv(name); v != "" {
 		if n, err := strconv.Atoi(v); err == nil {
@@ -1365,6 +1480,7 @@ func TestVerifC08(t *testing.T) {
 	only := c08EnvInt("VERIF_C08_ONLY", -1)
 	shard, shards := c08EnvInt("VERIF_C08_SHARD", 0), c08EnvInt("VERIF_C08_SHARDS", 1)
 	trace := os.Getenv("VERIF_C08_TRACE") != ""
+	c08StartWatchdog()
 	var m0 runtime.MemStats
 	runtime.GC()
 	runtime.ReadMemStats(&m0)
